@@ -88,6 +88,9 @@ def _gen_atomic(o, nparts, has_perf, cfg):
     k = R.pick_weighted(o, kinds)
     op = {"k": k}
     tgt = o.choice(["score"] + ["part%d" % i for i in range(nparts)])
+    if k in ("save_xml", "save_midi") and o.random() < 0.2:
+        # the exporters also take the list of top-level parts and part groups itself
+        tgt = "structure"
     if k == "save_xml":
         op.update(target=tgt, route=o.choice(("str", "filelike", "path")))
     elif k == "save_midi":
@@ -165,6 +168,12 @@ def generate(seed, tier, cfg):
             for n in p["notes"]:
                 if n.get("g") is None and st.workload.random() < 0.3:
                     n["sym"] = None
+    # a part in a mode the key-name table does not know (legal in MusicXML): calls that need the key name fail on it,
+    # every time and without consequences for later calls on other objects
+    modal = k.randrange(nparts) if nparts >= 2 and k.random() < 0.12 else None
+    if modal is not None:
+        other = "part%d" % ((modal + 1) % nparts)
+        programs[0][:0] = [{"k": "pretty", "target": other}, {"k": "pretty", "target": "part%d" % modal}, {"k": "pretty", "target": other}]
     nsteps = sum(len(p) for p in programs) * 6 + 20
     policy = k.choice(("uniform", "bursty", "uniform", "rr"))
     return {
@@ -172,7 +181,7 @@ def generate(seed, tier, cfg):
         "perf_seed": st.workload.randrange(1 << 30) if has_perf else None,
         "programs": programs,
         "schedule": sched.gen_schedule(st.schedule, nclients, nsteps, policy),
-        "knobs": {"policy": policy, "reclimit": k.choice((1000, 1500, 3000)), "profile": profile, "chunk": k.choice((0, 0, 7, 16, 512)), "musical_beat": [i for i in range(nparts) if k.random() < 0.5], "high_staff_words": [i for i in range(nparts) if k.random() < 0.25], "unnumbered_groups": k.random() < 0.4, "custom_mbeats": k.random() < 0.5, "unnumbered_measures": [i for i in range(nparts) if k.random() < 0.25], "empty_part_id": k.choice((None, None, None, 0, 1)), "hyphen_ids": k.random() < 0.3},
+        "knobs": {"policy": policy, "reclimit": k.choice((1000, 1500, 3000)), "profile": profile, "chunk": k.choice((0, 0, 7, 16, 512)), "musical_beat": [i for i in range(nparts) if k.random() < 0.5], "high_staff_words": [i for i in range(nparts) if k.random() < 0.25], "unnumbered_groups": k.random() < 0.4, "custom_mbeats": k.random() < 0.5, "unnumbered_measures": [i for i in range(nparts) if k.random() < 0.25], "empty_part_id": k.choice((None, None, None, 0, 1)), "hyphen_ids": k.random() < 0.3, "orphan_children": k.random() < 0.3, "modal_part": modal},
     }
 
 
@@ -341,6 +350,22 @@ class World(object):
                 while g is not None:
                     g.number = None
                     g = g.parent
+        if kn.get("orphan_children"):
+            # part groups filled with children.append(...) alone, as the MIDI and MEI importers do: the children carry no
+            # link back to their group
+            groups = []
+            for p in self.score.parts:
+                g = p.parent
+                while g is not None:
+                    if not any(g is x for x in groups):
+                        groups.append(g)
+                    g = g.parent
+            for g in groups:
+                for ch in g.children:
+                    ch.parent = None
+        if kn.get("modal_part") is not None and len(self.score.parts) > kn["modal_part"]:
+            for ks in self.score.parts[kn["modal_part"]].iter_all(S.KeySignature):
+                ks.mode = "dorian"
         if kn.get("empty_part_id") is not None and self.score.parts:
             # a part without an id (hand-built parts often have none)
             self.score.parts[kn["empty_part_id"] % len(self.score.parts)].id = ""
@@ -380,6 +405,8 @@ class World(object):
     def target(self, name):
         if name == "score":
             return self.score
+        if name == "structure":
+            return list(self.score.part_structure)
         if name == "perf":
             return self.perf
         if name == "ppart":
